@@ -298,10 +298,14 @@ pub fn run(ctx: &Ctx) -> i32 {
     // process-level cases mostly sleep: run many at once
     let mut c = ctx.clone();
     c.workers = 40;
-    let stats = runner::run_campaign(&C14, &c, if ctx.thorough() { 150 } else { 15 });
+    let regress = runner::replay_dir(&C14, "/verif/regress/plug", "C14-");
+    let replayed = regress.evaluations;
+    let mut stats = if regress.failures.is_empty() { runner::run_campaign(&C14, &c, if ctx.thorough() { 150 } else { 15 }) } else { runner::Stats::default() };
+    stats.merge(regress);
     let mut ev = Evidence::default();
     ev.level = "exploration".into();
     ev.rule = "one case = a fresh real watchtower-client process (fake lightningd on stdin/stdout) + a scripted fake tower: the reply under test is served to registertower (first registration / renewal), to the add_appointment sent by the commitment_revocation hook, or to the add_appointment sent by a retrier after an outage. Replies: valid; signature by another key; undecodable signatures (empty, short, 103/105 symbols, non-alphabet, unicode); every field dropped / null / retyped / negative / 2^32 / float; non-extending receipts; subscription error; documented and unknown error codes; raw bodies (empty, text, HTML, truncated JSON, random bytes, 1 MiB, non-ASCII) under status 200/4xx/5xx; wrong-shape JSON; connection reset. Oracle: registration recorded iff valid and extending; wrong-key acknowledgement => misbehaving + exact proof + no further request; otherwise every RPC/hook answered, process alive, no panic on stderr, no receipt stored that does not verify, no request flood. Non-trivial = the reply is not the valid one; distinct = distinct (situation, reply class).".into();
     ev.assumptions = vec!["a tower that never answers (stall) is not a reply and is not generated".into(), "timing: an RPC not answered within 15 s counts as never answered".into()];
+    ev.extra.insert("regression_cases_replayed".into(), json!(replayed));
     runner::conclude(ctx, "C14", stats, ev, started)
 }
